@@ -240,7 +240,14 @@ def run(ctx):
     ctx.rule("C04.entry", "redact_in_place writes the event only through RetainedKeys::apply (content with the type's keys, top level with "
                           "is_event_key_retained) and the requested unsigned.redacted_because; redact and redact_content_in_place go through the same functions")
     eff = lambda n: "btree::map::BTreeMap" in n or n.startswith(CJ)
-    dex3 = D.Dex(w.lookup, adt_discr=w.adt_discr, effects=eff)
+    # free functions of the module other than the named ones are private helpers: inlined, so a helper extraction looks the same
+    KEEP = {"redact", "redact_in_place", "redact_content_in_place", "retained_event_content_keys", "is_event_key_retained", "try_from_json_map",
+            "to_canonical_value"}
+    def helper(n):
+        rest = n[len(CJ) + 2:] if n.startswith(CJ + "::") else None
+        return rest is not None and "::" not in rest and "<" not in rest and "{" not in rest and rest not in KEEP and not rest.startswith("is_room_") \
+            and not rest.endswith("_retained_keys")
+    dex3 = D.Dex(w.lookup, adt_discr=w.adt_discr, effects=eff, inline=helper)
     f = w.fn(f"{CJ}::redact_in_place")
     rp = dex3.paths(f, [D.sym("event"), rules_s, D.sym("because")])
     okp = [p for p in rp if p.kind == "ret" and p.ret and p.ret[2] == "Ok"]
@@ -251,6 +258,8 @@ def run(ctx):
         because = [a[2] for a, t in p.conds if a[0] == "variant" and a[1] == D.sym("because") and t]
         applies, inserts, others = [], [], []
         for e in p.effects:
+            if helper(e[0]):
+                continue    # an inlined private helper: its body was analysed in place
             m = e[0].rsplit("::", 1)[-1]
             if e[0] == f"{CJ}::RetainedKeys::apply":
                 applies.append(e)
